@@ -59,6 +59,47 @@ class FalsyCallable:
         return self.fn(*a, **k)
 
 
+SHAPES = ['falsy', 'lambda', 'object', 'async-object', 'partial', 'future', 'wrapped', 'bound']
+
+
+def shape_callable(fn, shape):
+    """`fn` (a coroutine function) handed over in another LEGAL form of 'a callable that returns an awaitable': what the library
+    does with it is call it and await what it returns.  shape True == 'falsy'."""
+    import functools
+    if not shape:
+        return fn
+    if shape is True or shape == 'falsy':
+        return FalsyCallable(fn)
+    if shape == 'lambda':
+        return lambda *a, **k: fn(*a, **k)                 # a plain function returning a coroutine
+    if shape == 'object':
+        class _Policy:                                     # an object whose plain __call__ returns a coroutine
+            def __call__(self, *a, **k):
+                return fn(*a, **k)
+        return _Policy()
+    if shape == 'async-object':
+        class _APolicy:
+            async def __call__(self, *a, **k):
+                return await fn(*a, **k)
+        return _APolicy()
+    if shape == 'partial':
+        return functools.partial(lambda _tag, *a, **k: fn(*a, **k), 'tag')
+    if shape == 'future':
+        # a plain function returning a Task (an awaitable that is not a coroutine), e.g. work handed to another task / executor
+        return lambda *a, **k: asyncio.ensure_future(fn(*a, **k))
+    if shape == 'wrapped':
+        @functools.wraps(fn)
+        def _wrapper(*a, **k):
+            return fn(*a, **k)
+        return _wrapper
+    if shape == 'bound':
+        class _Owner:
+            async def check(self, *a, **k):
+                return await fn(*a, **k)
+        return _Owner().check
+    raise ValueError(shape)
+
+
 class AppSim:
     def __init__(self, frontend: str, registerer=None, vl=None, local=True):
         self.frontend = frontend
@@ -173,7 +214,7 @@ class AppSim:
                 rec[1] = vl.now_ms()
                 return verdict
         if falsy_validator:
-            _validator = FalsyCallable(_validator)
+            _validator = shape_callable(_validator, falsy_validator)
         if validator == 'none':
             _validator = None
         elif validator == 'stock':
